@@ -173,7 +173,9 @@ def r_merge(ck: Checker) -> None:
     ok = len(tags) == 2 and re.fullmatch(r"\[\*(\w+)\.terms,agg_ident\(0\)\]", tags[0]) is not None and re.fullmatch(r"\[\*(\w+)\.terms,agg_ident\(index\)\]", tags[1]) is not None
     ck.add("elements of merged aggregates are tagged with their aggregate's index", ok, func, func.node, f"terms {tags}", "two aggregates may contain equal tuples: without a distinguishing tag the merged set would count them once")
     rest = resolved_calls(ck.prg, func, "clingo.ast.BodyAggregateElement")
-    ok = len(rest) == 1 and unparse(rest[0].args[0]).replace(" ", "") == "[term,agg_ident(len(aggs)+index)]"
+    lp_r = enclosing_loop(func, rest[0]) if rest else None
+    tgt = [unparse(e) for e in lp_r.target.elts] if lp_r is not None and isinstance(lp_r.target, ast.Tuple) and len(lp_r.target.elts) == 2 else ["?", "?"]
+    ok = len(rest) == 1 and lp_r is not None and unparse(lp_r.iter) == "enumerate(rest)" and unparse(rest[0].args[0]).replace(" ", "") == f"[{tgt[1]},agg_ident(len(aggs)+{tgt[0]})]"
     ck.add("plain summands get tags beyond the aggregates' indices", ok, func, rest[0] if rest else func.node, f"`{fmt(rest[0]) if rest else None}`", "")
     fin = [c for c in attr_calls(func, "update") if kwarg(c, "function") is not None]
     ck.add("a merged aggregate is a #sum", len(fin) == 1 and unparse(kwarg(fin[0], "function")) == "AggregateFunction.Sum", func, func.node, f"`{fmt(fin[0]) if fin else None}`", "")  # type: ignore[arg-type]
